@@ -188,6 +188,9 @@ class Exec:
         nid = T.single_node(p)
         if nid is not None:
             op, w, args = T.nodes[nid]
+            if op == 'ite':
+                # pointer chosen by a symbolic condition (e.g. a function table filled from CPU feature tests): fork on it
+                return self.decode(args[1] if self.decide(args[0]) else args[2])
             if op == 'add' and len(args[0]) == 1 and args[0][0][1] == 1:
                 o = self.base2obj.get(args[0][0][0])
                 if o is not None:
